@@ -34,7 +34,7 @@ MCInit ==
   /\ cberr = [P |-> "", V |-> ""]
   /\ degen = FALSE
   /\ out = NoOut
-  /\ hist = [ops |-> << >>, cb |-> << >>, retP |-> << >>, retV |-> << >>, fin |-> FALSE, pend |-> NoPending, vskip |-> FALSE, dev |-> FALSE, nfix |-> 0, nch |-> 0, known |-> << >>]
+  /\ hist = [ops |-> << >>, cb |-> << >>, retP |-> << >>, retV |-> << >>, fin |-> FALSE, pend |-> NoPending, vskip |-> FALSE, dev |-> FALSE, nfix |-> 0, nch |-> 0, known |-> << >>, cbs |-> << >>, cur |-> 0]
 
 NCalls == Len(hist.ops) + Len(hist.cb)
 LastGate == PLen(cs.P) - 1
@@ -122,6 +122,7 @@ LockCall(c) ==
         /\ out' = [ret |-> << rp.ret, rv.ret >>, err |-> << rp.err, rv.err >>, used |-> 0, ref |-> << >>]
         /\ hist' = [hist EXCEPT !.ops = IF ph.P = "build" THEN Append(@, ProgOp(c)) ELSE @,
                                 !.cb = IF ph.P = "cb" THEN Append(@, ProgOp(c)) ELSE @,
+                                !.cbs = IF ph.P = "cb" THEN [@ EXCEPT ![hist.cur] = Append(@, ProgOp(c))] ELSE @,
                                 !.retP = Append(@, [ret |-> IF c.op = "commit" THEN rp.ret[2] ELSE rp.ret,
                                                     err |-> rp.err, len |-> PLen(rp.st)]),
                                 !.retV = Append(@, [ret |-> rv.ret, err |-> rv.err, len |-> VLen(rv.st)]),
@@ -144,6 +145,7 @@ MissingCall ==
         /\ out' = [ret |-> << rp.ret >>, err |-> << rp.err >>, used |-> 0, ref |-> << >>]
         /\ hist' = [hist EXCEPT !.ops = IF ph.P = "build" THEN Append(@, [op |-> "alloc"]) ELSE @,
                                 !.cb = IF ph.P = "cb" THEN Append(@, [op |-> "alloc"]) ELSE @,
+                                !.cbs = IF ph.P = "cb" THEN [@ EXCEPT ![hist.cur] = Append(@, [op |-> "alloc"])] ELSE @,
                                 !.retP = Append(@, [ret |-> rp.ret, err |-> rp.err, len |-> PLen(rp.st)]),
                                 !.fin = TRUE, !.vskip = TRUE]
   /\ UNCHANGED << env, tr, ph, mid, wire, sent, res, degen >>
@@ -156,8 +158,15 @@ LockSwitch ==
   /\ ph' = [P |-> "cb", V |-> "cb"]
   /\ tr' = [P |-> Append(tr.P, DomSep2Phase), V |-> Append(tr.V, DomSep2Phase)]
   /\ out' = NoOut
-  /\ hist' = [hist EXCEPT !.pend = cs.P.pending]
+  /\ hist' = [hist EXCEPT !.pend = cs.P.pending, !.cur = 1, !.cbs = [k \in 1 .. cs.P.ndefer |-> << >>]]
   /\ UNCHANGED << env, wire, sent, res, cberr, degen >>
+
+\* the current callback returns and the next registered one starts: nothing in the bookkeeping changes -
+\* in particular a half-assigned gate stays open across callbacks of the same phase
+NextCb ==
+  /\ ~hist.fin /\ ph.P = "cb" /\ hist.cur < cs.P.ndefer /\ cberr.P = ""
+  /\ hist' = [hist EXCEPT !.cur = @ + 1]
+  /\ UNCHANGED vars
 
 \* the behaviour ends here (prove / verify are called)
 Finish ==
@@ -166,7 +175,7 @@ Finish ==
   /\ hist' = [hist EXCEPT !.fin = TRUE]
   /\ UNCHANGED vars
 
-MCNext == (\E c \in Calls : LockCall(c)) \/ MissingCall \/ LockSwitch \/ Finish
+MCNext == (\E c \in Calls : LockCall(c)) \/ MissingCall \/ LockSwitch \/ NextCb \/ Finish
 
 MCSpec == MCInit /\ [][MCNext]_mvars
 
@@ -219,7 +228,7 @@ MCInv == /\ MirrorLock /\ HandlesAgree /\ PendingClosed /\ NoCrossPhasePair /\ C
 (* Behaviour generation                                                    *)
 (***************************************************************************)
 Behaviour ==
-  [p |-> [label |-> "verif", ops |-> hist.ops, cbs |-> [k \in 1 .. cs.P.ndefer |-> IF k = 1 THEN hist.cb ELSE << >>],   \* second-phase calls run in the first callback
+  [p |-> [label |-> "verif", ops |-> hist.ops, cbs |-> IF ph.P = "cb" THEN hist.cbs ELSE [k \in 1 .. cs.P.ndefer |-> << >>],
           cap |-> Pad2(PLen(cs.P))],
    expect_v |-> IF hist.vskip THEN "" ELSE IF Satisfied(cs.P) THEN "ok" ELSE "reject",
    expect_p |-> IF cberr.P # "" THEN cberr.P ELSE "ok",      \* a failing callback fails prove
@@ -229,5 +238,5 @@ Behaviour ==
 Emit == (GEN /\ hist.fin) => PrintT(<< "BEHAVIOUR", ToJson(Behaviour) >>)
 
 \* history is irrelevant to the invariants: the state space is explored modulo hist when not generating
-View == IF GEN THEN mvars ELSE << vars, NCalls, hist.fin >>
+View == IF GEN THEN mvars ELSE << vars, NCalls, hist.fin, hist.cur >>
 =============================================================================
